@@ -731,7 +731,11 @@ def run_bounded_unit(unit, cfgname, workdir, tier='quick', mutate=None):
         if 'trace' in r:
             ob['trace'] = r['trace']
         res.obligations.append(ob)
-    res.failed = [o for o in res.obligations if o['status'] != 'SUCCESS']
+    res.failed = [o for o in res.obligations if o['status'] == 'FAILURE']
+    res.unknown = [o for o in res.obligations if o['status'] not in ('SUCCESS', 'FAILURE')]
+    if res.unknown and not res.failed:
+        res.status, res.reason = 'inconclusive', '%d obligations left undetermined by cbmc (status %s)' % (len(res.unknown), res.unknown[0]['status'])
+        return res
     nb = re.findall(r'no body for (?:function|callee) (\S+)', '\n'.join(msgs))
     if nb:
         res.status, res.reason = 'inconclusive', 'function without body: %s' % sorted(set(nb))
